@@ -9,7 +9,7 @@ from .common import *
 
 META = {
     "level": "other",
-    "explanation": "Table and formula agreement against independent specification tables (sa/tables.py, each entry citing its source): (R1) each of the 49 public numeric names (Int8..64 u/s b/l/n, Int24*, Float16/32/64 b/l/n, Byte/Short/Int/Long/Half/Single/Double, Bit/Nibble/Octet) is bound to exactly the constructor term its name implies -- FormatField(order, code) per the struct format table, BytesInteger(3, signed, swapped in {False, True, native}) with native = (sys.byteorder == 'little'), BitsInteger(n) -- and is exported in __all__; (R2) the encoding-unit table equals the Unicode code-unit widths, encodingunit returns that many zero bytes, and CString/PaddedString/PascalString/GreedyString wrap exactly the documented delimiter constructs with that unit as terminator/pad and the caller's encoding; (R3) Struct/Sequence/FocusedSeq/Array touch the stream only through their members, in declaration order (with C01.R6); (R4) rejection guards exist with the right polarity: non-integers and negative VarInts are IntegerError, integer2bits has the two's-complement range check, integer2bytes delegates the range check to int.to_bytes(signed=signed) and converts OverflowError; (R5) pad/length formulas equal the reference normal forms: Padded pad = length - consumed with pad < 0 rejected, Aligned pad = (-consumed) mod modulus, Prefixed writes len(payload) [+ sizeof(lengthfield) iff includelength] into the length field, on both code paths; (R7) LEB128 canonicality and byte ranges of VarInt._build by interval analysis. R5 also carries NullTerminated's parse-side terminator rules (shared with C08.R2); R7 runs in both tiers. (R8) the generated code of the core-fragment classes agrees with the interpreter methods the other rules compare with the reference (shared with C04.R3/R7).",
+    "explanation": "Table and formula agreement against independent specification tables (sa/tables.py, each entry citing its source): (R1) each of the 49 public numeric names (Int8..64 u/s b/l/n, Int24*, Float16/32/64 b/l/n, Byte/Short/Int/Long/Half/Single/Double, Bit/Nibble/Octet) is bound to exactly the constructor term its name implies -- FormatField(order, code) per the struct format table, BytesInteger(3, signed, swapped in {False, True, native}) with native = (sys.byteorder == 'little'), BitsInteger(n) -- and is exported in __all__; (R2) the encoding-unit table equals the Unicode code-unit widths, encodingunit returns that many zero bytes, and CString/PaddedString/PascalString/GreedyString wrap exactly the documented delimiter constructs with that unit as terminator/pad and the caller's encoding; (R3) Struct/Sequence/FocusedSeq/Array touch the stream only through their members, in declaration order (with C01.R6); (R4) rejection guards exist with the right polarity: non-integers and negative VarInts are IntegerError, integer2bits has the two's-complement range check, integer2bytes delegates the range check to int.to_bytes(signed=signed) and converts OverflowError; (R5) pad/length formulas equal the reference normal forms: Padded pad = length - consumed with pad < 0 rejected, Aligned pad = (-consumed) mod modulus, Prefixed writes len(payload) [+ sizeof(lengthfield) iff includelength] into the length field, on both code paths; (R7) LEB128 canonicality and byte ranges of VarInt._build by interval analysis. R5 also carries NullTerminated's parse-side terminator rules (shared with C08.R2); R7 runs in both tiers. (R8) the generated code of the core-fragment classes agrees with the interpreter methods the other rules compare with the reference (shared with C04.R3/R7). R3 also: a + b / a >> b concatenate member lists without touching the operands (shared with C12.R1); (R9) label tables of Enum/FlagsEnum/Mapping (shared with C13.R4).",
     "undecided": "Numerical semantics: two's-complement arithmetic inside the helpers, IEEE-754 (delegated to struct), ZigZag algebra, consumed-byte counts on arbitrary byte strings.",
     "trusted_base": ["python ast (3.12)", "sa/tables.py (struct format characters, Unicode code units)", "sa.summ / sa.pos"],
     "assumptions": ["the struct module implements its documented format characters"],
@@ -308,7 +308,24 @@ def run(ctx):
         named_l = ("comp", "list", named[2], named[3], named[4])
         ok = len(w) == 1 and next(iter(w)) in (("concat", lst(sc), lst(named)), ("concat", lst(sc), named_l))
         ctx.ob("C03.R3", fi, ok, "%s keeps its members as list(positional) + [name/member for name, member in keywords]: declaration order" % cls, key="%s member list" % cls)
-    ctx.floor("C03.R3", 13)
+    # composites written with operators: a + b / a >> b concatenate the member lists in operand order and leave the operands alone (shared with C12.R1)
+    from . import C12 as _C12
+    _C12.composite_operators(ctx, "C03.R3")
+    ctx.floor("C03.R3", 17)
+    # label mappings: the table rules of Enum / FlagsEnum / Mapping (shared with C13.R4)
+    from ..core import Ctx as _Ctx13
+    from . import C13 as _C13
+    sub13 = _Ctx13("C13", ctx.tier, ctx.root, model=ctx.model)
+    sub13._summ = summariser(ctx)
+    _C13.run(sub13)
+    for e in sub13.errors:
+        ctx.error("shared C13 rules: " + e)
+    n13 = 0
+    for o in sub13.obligations:
+        if o.rule == "C13.R4":
+            n13 += 1
+            ctx.ob("C03.R9", o.where, o.ok, o.what, key=o.key, loc=o.loc, detail=o.detail)
+    ctx.floor("C03.R9", 10)
 
     # ---------------------------------------------------------------- R4
     isint = ("call", ("free", "isinstance"), (OBJ, ("free", "int")), ())
